@@ -176,4 +176,12 @@ PROPS = {
         "floors": ["c12:systematic:" + k for k in ["string", "key", "integer", "bytes", "bool", "enum", "array"]] + ["c12:random:random"],
         "assumptions": COMMON_ASSUMPTIONS,
     },
+    "C04": {
+        "shards": 16,
+        "level_text": "For the isolation matrix (every rule and annotation one at a time), random rule-laden objects (each rule at absent / zero / boundary / typical values, both values of every boolean) and random bundles, the harness builds the j5.schema.v1 schema the source declares (own code) and compares it with RootSchema.ToJ5Root() of what the repository reflects back from the compiled descriptors through three paths: SchemaCache.Schema on the in-memory descriptors, SchemaSetFromFiles, and SchemaCache.Schema on the printed .proto text re-compiled through protosrc.",
+        "level_note": "Normalisation (both sides): inline types are refs to the nested name, absent Rules == empty Rules, empty Ext ignored, exclusive/unique flag false == absent, map key schema ignored, descriptions trimmed.",
+        "rule": "one evaluation per compiled package; every package with at least one declared schema is non-trivial; distinct by hash of the sources.",
+        "floors": ["c04:isolation", "c04:random-rules", "c04:random-bundle"],
+        "assumptions": COMMON_ASSUMPTIONS,
+    },
 }
